@@ -106,6 +106,9 @@ pub fn swap(
             let (bounded_sqrt_price_target, adaptive_fee_update_skipped) =
                 fee_rate_manager.get_bounded_sqrt_price_target(sqrt_price_target, curr_liquidity);
 
+            #[cfg(feature = "verif")]
+            let amount_remaining_before_step = amount_remaining;
+
             let swap_computation = compute_swap(
                 amount_remaining,
                 total_fee_rate,
@@ -153,6 +156,24 @@ pub fn swap(
             );
             curr_protocol_fee = next_protocol_fee;
             curr_fee_growth_global_input = next_fee_growth_global_input;
+
+            #[cfg(feature = "verif")]
+            verif_trace::push(verif_trace::StepTrace {
+                amount_remaining_before: amount_remaining_before_step,
+                fee_rate: total_fee_rate,
+                liquidity: curr_liquidity,
+                sqrt_price_before: curr_sqrt_price,
+                tick_index_before: curr_tick_index,
+                sqrt_price_target: bounded_sqrt_price_target,
+                next_price: swap_computation.next_price,
+                amount_in: swap_computation.amount_in,
+                amount_out: swap_computation.amount_out,
+                fee_amount: swap_computation.fee_amount,
+                protocol_fee_after: curr_protocol_fee,
+                fee_growth_global_input_after: curr_fee_growth_global_input,
+                next_tick_index,
+                skipped: adaptive_fee_update_skipped,
+            });
 
             if swap_computation.next_price == next_tick_sqrt_price {
                 let (next_tick, next_tick_initialized) = swap_tick_sequence
@@ -266,6 +287,42 @@ pub fn swap(
         next_protocol_fee: curr_protocol_fee,
         next_adaptive_fee_info: fee_rate_manager.get_next_adaptive_fee_info(),
     }))
+}
+
+/// Verification hook (cargo feature `verif`, off by default): per-step trace of the swap loop.
+#[cfg(feature = "verif")]
+pub mod verif_trace {
+    use std::cell::RefCell;
+
+    #[derive(Clone, Debug)]
+    pub struct StepTrace {
+        pub amount_remaining_before: u64,
+        pub fee_rate: u32,
+        pub liquidity: u128,
+        pub sqrt_price_before: u128,
+        pub tick_index_before: i32,
+        pub sqrt_price_target: u128,
+        pub next_price: u128,
+        pub amount_in: u64,
+        pub amount_out: u64,
+        pub fee_amount: u64,
+        pub protocol_fee_after: u64,
+        pub fee_growth_global_input_after: u128,
+        pub next_tick_index: i32,
+        pub skipped: bool,
+    }
+
+    thread_local! {
+        static STEPS: RefCell<Vec<StepTrace>> = const { RefCell::new(Vec::new()) };
+    }
+
+    pub fn push(step: StepTrace) {
+        STEPS.with(|s| s.borrow_mut().push(step));
+    }
+
+    pub fn take() -> Vec<StepTrace> {
+        STEPS.with(|s| std::mem::take(&mut *s.borrow_mut()))
+    }
 }
 
 fn calculate_fees(
